@@ -1932,6 +1932,13 @@ handle_include_directive(const string &args, const YYLTYPE &loc) {
       return;
     }
 
+    if (get_file_depth() >= 200) {
+      // Almost certainly a file that (indirectly) includes itself without an
+      // include guard; stop before we run out of memory.
+      error("#include nested too deeply: " + filename.get_fullpath(), loc);
+      return;
+    }
+
     if (!push_file(file)) {
       warning("Unable to read " + filename.get_fullpath(), loc);
     }
